@@ -356,6 +356,9 @@ func CheckScaled(t *testing.T, id string, num, den int64, body func(*rapid.T)) {
 		defer f.Value.Set(strconv.FormatInt(base, 10))
 	}
 	var done int64
+	mu.Lock()
+	skipsBefore := infraSkips[id]
+	mu.Unlock()
 	rapid.Check(t, func(rt *rapid.T) {
 		body(rt)
 		mu.Lock()
@@ -368,8 +371,31 @@ func CheckScaled(t *testing.T, id string, num, den int64, body func(*rapid.T)) {
 	if !t.Failed() && done < planned {
 		p.Short = append(p.Short, fmt.Sprintf("%s: %d of %d", t.Name(), done, planned))
 	}
+	if sk := infraSkips[id] - skipsBefore; sk > 3 && sk*50 > planned {
+		p.Short = append(p.Short, fmt.Sprintf("%s: %d of %d planned cases abandoned for infrastructure reasons", t.Name(), sk, planned))
+	}
 	mu.Unlock()
 }
+
+// InfraSkip abandons the current generated case because the harness' own fixture could not be set
+// up (no raw peer within the bound, a fixture dial failed, a scratch directory could not be made):
+// the case is neither a pass nor a violation. rapid discards it and draws another one; the number of
+// discarded cases is reported, and more than 2 % (and more than 3) of a test's planned cases make
+// the run inconclusive.
+func InfraSkip(rt *rapid.T, id string, format string, args ...any) {
+	msg := fmt.Sprintf(format, args...)
+	mu.Lock()
+	p := get(id)
+	p.Labels["infrastructure-skipped-cases"]++
+	if len(p.Notes) < 40 {
+		p.Notes = append(p.Notes, "infrastructure: "+msg)
+	}
+	infraSkips[id]++
+	mu.Unlock()
+	rt.Skip("infrastructure: " + msg)
+}
+
+var infraSkips = map[string]int64{}
 
 // Hash returns a 64-bit fingerprint of its arguments.
 func Hash(parts ...any) uint64 {
